@@ -1,5 +1,6 @@
 import Capella.Lemmas.Reqif
 import Capella.Lemmas.ReqifXml
+import Capella.Lemmas.ReqifOrder
 
 /-!
 # C20 — ReqIF export is closed, unique and covers every requirement exactly once
@@ -290,6 +291,34 @@ theorem compress_decision (t : Target) :
 theorem old_decision_ignores_explicit (t : Target) : compressDecisionOld t (some true) = false := by
   cases t <;> rfl
 
+/-! ## the iteration order of the exporter's sets (`PYTHONHASHSEED`) -/
+
+/-- All theorems of this file hold for every `Module.setOrder`. What the order can change: the custom
+attribute definitions of a spec type are, in whatever order the set yields them, a rearrangement of the
+definitions first seen under that requirement type — a list that does not mention the order. -/
+theorem spec_type_attributes_any_order (m : Module) (t : Option ReqType) :
+    (specObjectType m t).custom.Perm ((adefsSeen m (t.map (·.uuid))).map attrDefEl) :=
+  custom_attrdefs_perm m t
+
+/-- What it cannot change: the emitted datatype elements. For every module that is exported, a datatype
+element is emitted iff it is the element of some collected definition — whichever definition reached
+`visited_types` first, identifier, kind, long name and specified values are the same. (The right-hand side
+does not mention the order.) -/
+theorem datatypes_any_order (m : Module) (hI : Identity m) (hE : hasEnumWithoutDef m = false)
+    (hC : hasClassViolation m = false) (d : DatatypeEl) :
+    d ∈ customDatatypes m ↔ ∃ x ∈ allAdefsSeen m, datatypeEl x = d := by
+  constructor
+  · intro hd
+    obtain ⟨x, hx, rfl⟩ := List.mem_map.mp (mem_of_mem_dedupBy hd)
+    exact ⟨x, mem_allAdefs_iff_seen.mp hx, rfl⟩
+  · rintro ⟨x, hx, rfl⟩
+    have hx' := mem_allAdefs_iff_seen.mpr hx
+    obtain ⟨e, he, hk⟩ := exists_mem_dedupBy (·.key) ((allAdefs m).map datatypeEl) (datatypeEl x)
+      (List.mem_map_of_mem hx')
+    obtain ⟨y, hy, rfl⟩ := List.mem_map.mp (mem_of_mem_dedupBy he)
+    rw [← datatypeEl_determined m hI.dts hE hC hy hx' hk]
+    exact he
+
 /-! ## the element tree that is serialised -/
 
 /-- The skeleton of every exported tree: `REQ-IF` holds exactly `THE-HEADER` and `CORE-CONTENT`, in
@@ -459,6 +488,14 @@ example : ((doc conv m0).toXml (header ⟨"c".toList, "2020-01-01T00:00:00Z".toL
   rw [tree_identifiers, tree_references]
   simp only [List.length_map]
   decide
+
+/-- an order that reverses every set is a legal `setOrder`; the example module under it is exported, closed
+and unique as well, and the custom definitions of type `t1` come out in the other order -/
+private def m0r : Module := { m0 with setOrder := fun _ l => l.reverse, setOrder_perm := fun _ l => List.reverse_perm l }
+example : (specObjectType m0r (some rt)).custom = (specObjectType m0 (some rt)).custom.reverse
+    ∧ (specObjectType m0 (some rt)).custom.length = 3 := by decide
+example : (doc conv m0r).refs.all (fun i => (doc conv m0r).defs.contains i) = true
+    ∧ ((doc conv m0r).defs.map Ident.render).Nodup := by decide
 
 end examples
 
